@@ -48,6 +48,7 @@ package coregex
 import (
 	"io"
 	"iter"
+	"regexp"
 	"regexp/syntax"
 	"strconv"
 	"strings"
@@ -517,77 +518,21 @@ func (r *Regex) Longest() {
 //	prefix2, complete2 := re2.LiteralPrefix()
 //	// prefix2 = "Hello", complete2 = true
 func (r *Regex) LiteralPrefix() (prefix string, complete bool) {
-	flags := syntax.Flags(syntax.Perl)
+	// stdlib does not derive this from the syntax tree but from its compiled
+	// program: x+ contributes x, a U+FFFD or case-folded rune ends the prefix,
+	// and a leading ^ is only skipped when the program is one-pass (which also
+	// decides "complete" for ^literal$). Those rules are internal to package
+	// regexp, so ask it directly to stay identical across Go versions.
+	// LiteralPrefix is not on any hot path; the compilation cost is acceptable.
+	compile := regexp.Compile
 	if r.posix {
-		flags = syntax.POSIX
+		compile = regexp.CompilePOSIX
 	}
-	re, err := syntax.Parse(r.pattern, flags)
+	re, err := compile(r.pattern)
 	if err != nil {
 		return "", false
 	}
-	re = re.Simplify()
-	return literalPrefix(re)
-}
-
-// literalPrefix extracts the literal prefix from a parsed regex AST.
-func literalPrefix(re *syntax.Regexp) (string, bool) {
-	switch re.Op {
-	case syntax.OpLiteral:
-		if re.Flags&syntax.FoldCase != 0 {
-			// Case-insensitive literal: like stdlib, the prefix ends at the first rune
-			// that has case variants (e.g. (?i)foo has no literal prefix).
-			for i, r := range re.Rune {
-				if unicode.SimpleFold(r) != r {
-					return string(re.Rune[:i]), false
-				}
-			}
-		}
-		return string(re.Rune), true
-	case syntax.OpConcat:
-		// Concatenation: collect literal prefixes from the beginning
-		var prefix []rune
-		hasAnchor := false
-		for _, sub := range re.Sub {
-			switch sub.Op {
-			case syntax.OpLiteral, syntax.OpCapture:
-				// Look inside capture group / stop at case-insensitive runes
-				inner, complete := literalPrefix(sub)
-				prefix = append(prefix, []rune(inner)...)
-				if !complete {
-					return string(prefix), false
-				}
-			case syntax.OpBeginLine, syntax.OpEndLine, syntax.OpBeginText, syntax.OpEndText:
-				// Skip anchors - they don't produce literal characters
-				// but mark that pattern has anchors (not complete)
-				hasAnchor = true
-				continue
-			case syntax.OpEmptyMatch:
-				// Empty match doesn't affect prefix
-				continue
-			default:
-				// Non-literal found
-				return string(prefix), false
-			}
-		}
-		// If we have anchors, the pattern is not "complete" (has additional constraints)
-		if hasAnchor {
-			return string(prefix), false
-		}
-		return string(prefix), true
-	case syntax.OpCapture:
-		// Capture group: look at the contents
-		if len(re.Sub) == 1 {
-			return literalPrefix(re.Sub[0])
-		}
-		return "", false
-	case syntax.OpBeginLine, syntax.OpEndLine, syntax.OpBeginText, syntax.OpEndText:
-		// Anchors alone mean no literal prefix and not complete
-		return "", false
-	case syntax.OpEmptyMatch:
-		return "", true
-	default:
-		return "", false
-	}
+	return re.LiteralPrefix()
 }
 
 // NumSubexp returns the number of parenthesized subexpressions in this Regex.
